@@ -454,6 +454,9 @@ func (m *Monitors) betMonitors(c *Chain, o Op, res string, prev, cur *Snap) []st
 			if o.Depositor >= 0 && o.Depositor != o.Signer {
 				depositor = c.AddrOf(o.Depositor)
 				g := prev.grant(c.AddrOf(o.Signer), depositor, 1)
+				if e, ok := m.grantExp[[3]int64{o.Depositor, o.Signer, 1}]; ok && e >= 0 && e < cur.Time {
+					bad("C09", "deposit on behalf of account %d executed at %d under a grant that expired at %d", o.Depositor, cur.Time, e)
+				}
 				if g == nil {
 					bad("C09", "deposit on behalf of account %d accepted without a grant", o.Depositor)
 				} else {
@@ -482,6 +485,9 @@ func (m *Monitors) betMonitors(c *Chain, o Op, res string, prev, cur *Snap) []st
 			signer := c.AddrOf(o.Signer)
 			if signer != owner {
 				g := prev.grant(signer, owner, 2)
+				if e, ok := m.grantExp[[3]int64{c.AccID(owner), o.Signer, 2}]; ok && e >= 0 && e < cur.Time {
+					bad("C09", "withdrawal on behalf of account %d executed at %d under a grant that expired at %d", c.AccID(owner), cur.Time, e)
+				}
 				if g == nil {
 					bad("C09", "account %d withdrew from a participation of account %d without a grant", o.Signer, c.AccID(owner))
 				} else {
@@ -523,6 +529,14 @@ func (m *Monitors) betMonitors(c *Chain, o Op, res string, prev, cur *Snap) []st
 			checkDeltas("C09", "withdrawal")
 		} else {
 			checkDeltas("C09", "failed withdrawal")
+		}
+	case "GRANT":
+		if res == "ok" {
+			m.grantExp[[3]int64{o.Granter, o.Grantee, o.GKind}] = o.Exp // expiry as granted (-1: none), by (granter, grantee, kind)
+		}
+	case "REVOKE":
+		if res == "ok" {
+			delete(m.grantExp, [3]int64{o.Granter, o.Grantee, o.GKind})
 		}
 	case "SEND":
 		// not a custody operation
@@ -615,6 +629,21 @@ func (m *Monitors) betMonitors(c *Chain, o Op, res string, prev, cur *Snap) []st
 					exp(p.ParticipantAddress, add(p.Liquidity.BigInt(), p.Fee.BigInt()))
 				default:
 					bad("C04", "participation %d of market %d paid while the market is unresolved", p.Index, uidNum(mkuid))
+				}
+			}
+		}
+		for mkuid, bk := range cur.Books {
+			if bk.Status != obtypes.OrderBookStatus_ORDER_BOOK_STATUS_STATUS_SETTLED {
+				continue
+			}
+			for _, p := range cur.Parts[mkuid] {
+				if !p.IsSettled {
+					bad("C04", "book of market %d is marked settled but participation %d was never paid", uidNum(mkuid), p.Index)
+				}
+			}
+			for k := range cur.Pending {
+				if k[0] == mkuid {
+					bad("C04", "book of market %d is marked settled but bet %s is still pending", uidNum(mkuid), k[1])
 				}
 			}
 		}
